@@ -2,4 +2,4 @@ From Coq Require Import ZArith QArith ExtrOcamlBasic.
 From EosV Require Import model.World model.Status model.Calc model.Engine model.Ops model.Spec model.Switches model.Wf.
 Extraction Language OCaml.
 Extraction "extract/out/engine.ml" step init_sys mkUniverse mkAttr mkMod mkEffect mkType mkBuff
-  attr_keys item_fit item_state solsys_carrier fit_items get_icache calc_of spec_value spec_val side_effects abilities ability_set_mode side_effect_mode op_ok_now op_ok2_now.
+  attr_keys item_fit item_state solsys_carrier fit_items get_icache calc_of spec_value spec_val side_effects abilities ability_set_mode side_effect_mode op_ok_now op_ok2_now op_ok3_now.
